@@ -173,10 +173,10 @@ FinalFiletype ==
     V.v = "accept" =>
         \/ V.ft = R.ft
         \/ /\ R.ft = "ts1" /\ R.promo /\ V.ft = "ts2"
-           /\ (cfg.cols > 4 \/ cfg.z0c = "unequal")
+           /\ (cfg.cols > 4 \/ Z0Class(cfg) = "unequal")
 
 Ts1Limits ==
-    (V.v = "accept" /\ V.ft = "ts1") => (cfg.cols <= 4 /\ cfg.z0c = "equal")
+    (V.v = "accept" /\ V.ft = "ts1") => (cfg.cols <= 4 /\ Z0Class(cfg) = "equal")
 
 (* the extension decides whenever it is recognised *)
 ExtensionWins ==
